@@ -234,6 +234,9 @@ class Driver(object):
             """stands in for the `random` module inside server.py: allocate's
             choice is the one the replayed behaviour made, when there is one"""
             def choice(self_, seq):
+                if drv._step is not None:
+                    cs = sorted(str(x) for x in seq)
+                    drv._step["cands"] = [len(cs)] + cs[:12]
                 want = drv._force_pick
                 if want is not None and want in seq:
                     return want
@@ -692,7 +695,7 @@ class Driver(object):
                 T.gen -= 1
         self._step = None
         disk = self.read_disk()
-        obs = dict(e=e, out=st["out"], err=err, tr=st["tr"], db=disk["db"], udb=disk["udb"],
+        obs = dict(e=e, out=st["out"], err=err, tr=st["tr"], db=disk["db"], udb=disk["udb"], cands=st.get("cands", []),
                    now=self.now_ticks(),
                    hid=dict(conn=self.conn_flags(), nextSweep=self.next_sweep, up=self.up,
                             rebooted=self.rebooted, gen=self.tokens.gen))
